@@ -21,9 +21,9 @@ CHECKS = {
         "assumptions": [],
         "deadline": {"quick": 300, "thorough": 1800},
         "stages": [
-            {"name": "linear", "harness": "c09_objectives", "args": ["--stage", "linear"], "share": 0.4,
+            {"name": "linear", "harness": "c09_objectives", "args": ["--stage", "linear"], "share": 0.4, "crash_is_violation": True,
              "what": "linear::function_t value/gradient vs mean loss + l1 mean|W| + l2/2 mean W^2"},
-            {"name": "gboost", "harness": "c09_objectives", "args": ["--stage", "gboost"], "share": 0.3,
+            {"name": "gboost", "harness": "c09_objectives", "args": ["--stage", "gboost"], "share": 0.3, "crash_is_violation": True,
              "what": "gboost bias / scale / grads objectives vs their definitions"},
             {"name": "sched", "harness": "c09_sched", "args": ["--budget", "1"], "args_thorough": ["--budget", "2", "--maxW", "3"],
              "crash_is_violation": True, "share": 0.3,
